@@ -14,7 +14,11 @@ focus = ''
 if rnd:
     k = (ord(rnd[0]) - ord('a')) % len(mechs)
     m = mechs[k]
-    if rnd[0] >= 'i':
+    if rnd[0] >= 'j':
+        k = (ord(rnd[0]) - ord('a') + 7) % len(mechs)
+        m = mechs[k]
+        focus = '\n  Focus: put your change in or around this mechanism of the implementation: %s (%s). Prefer a fault that depends on the FORM of a perfectly legal input rather than on its meaning, so that the everyday form behaves exactly as before and only an unusual form of the same thing goes wrong: its spelling or layout (lower case, extra or missing blanks, tabs, optional arguments omitted or given explicitly, an alternate separator or keyword order, a type sigil versus a DEFtype default, a number written in hex / octal / exponent form or with many digits), its size or alignment (a length, offset, address, coordinate or count that crosses a multiple of 8, 16, 128, 255 or 256, an odd versus an even length, the last element rather than the first), its order (operands, corners, ranges or list entries given in reverse or repeated, two names of which one is a prefix or a case variant of the other), or its position (the same statement at the end of a line, after THEN / ELSE, in a multi-statement line, as the last line of the program). Avoid faults that any everyday use of the mechanism would show.' % (m.get('name'), m.get('where'))
+    elif rnd[0] >= 'i':
         k = (ord(rnd[0]) - ord('a') + 6) % len(mechs)
         m = mechs[k]
         focus = '\n  Focus: put your change in or around this mechanism of the implementation: %s (%s). Prefer a FAST PATH: add (or widen) a shortcut that handles the common case more cheaply - skipping a conversion, a copy, a bounds or type check, a table lookup, a loop over something that is usually empty or usually has one element - whose guard condition is slightly too generous, so that a few uncommon but legal inputs or states take the shortcut although they need the full treatment (for example: the value is usually an integer / positive / below 256 / ASCII / already normalised; the list usually has one entry; the two operands usually have the same type; the file is usually at its end; the screen is usually in text mode; the string usually lives in string space). Everything the shortcut was meant for, and everything that clearly fails the guard, must behave exactly as before.' % (m.get('name'), m.get('where'))
